@@ -9,9 +9,10 @@ refers to yet; empty at statement boundaries) and the frontier `F`.
 Differences to the wording in DESIGN.md §4 (and why):
 * `live` is an existential witness instead of "the set of blocks reachable from ...": clause (iv)
   forces every live block to have at least one reference from a root or from a pointer slot of a
-  live/deferred block, clause (v) closes `live` under pointer slots; "reachable" in the graph sense
-  additionally needs acyclicity, which is stated separately (`Acyclic`) and is not needed for memory
-  safety.
+  live/deferred block, clause (v) closes `live` under pointer slots, and the added clause (vi)
+  (`acyclic`: the live blocks can be topologically sorted w.r.t. pointer slots) excludes garbage
+  cycles; together: following references backwards from any live block ends at a root or at a
+  deferred block, i.e. `live` is exactly the reachable set.
 * Every block has exactly three pointer slots (words 2, 4, 6) and ALL THREE are meaningful for
   live and deferred blocks: `store_values` writes the pointer slot of every field it stores (0 for
   integers), `store_zeros` nulls the unused ones and `store_fields` writes the link, so the deferred
@@ -20,7 +21,8 @@ Differences to the wording in DESIGN.md §4 (and why):
   (it is a typing fact about which slot is a link, which the heap alone does not know) but a
   precondition of `loadObj` (`LoadPre`), see Proofs.
 * (ii) "every word at or above the frontier is 0" is bounded by `limit` (the monitor cannot look
-  beyond the heap) and the frontier block must lie inside the heap: `F + 64 ≤ limit`.
+  beyond the heap), talks about 8-byte words aligned relative to the heap base only, and the frontier
+  block must lie inside the heap: `F + 64 ≤ limit`.
 * Blocks on the linear free list and pending blocks may contain arbitrary stale data in words 1..7;
   nothing ever reads those before writing them (store writes all three pointer slots of a block
   before `acquire_block` hands it out; load reads only from live blocks).
@@ -37,6 +39,13 @@ def Chain (m : Nat → Nat) : Nat → List Nat → Prop
   | a, [] => a = 0
   | a, x :: xs => a = x ∧ x ≠ 0 ∧ Chain m (m x) xs
 
+/-- `ord` is topologically sorted: every pointer slot of a block in the list is null or points to a
+block LATER in the list.  A duplicate-free list with this property has no cycle through pointer
+slots. -/
+def TopoSorted (m : Nat → Nat) : List Nat → Prop
+  | [] => True
+  | b :: rest => (∀ p, p ∈ ptrSlots m b → p = 0 ∨ p ∈ rest) ∧ TopoSorted m rest
+
 /-- The invariant with explicit witnesses, on raw components (so that it can be stated for the
 memory of an emulated machine as well as for model states). -/
 structure InvW (m : Nat → Nat) (base limit heap free : Nat)
@@ -50,8 +59,8 @@ structure InvW (m : Nat → Nat) (base limit heap free : Nat)
   lazy_chain : Chain m free (lazy ++ [F])
   frontier_block : IsBlock base F
   frontier_room : F + 64 ≤ limit
-  /-- (ii) everything from the frontier on is zero -/
-  zero_above : ∀ a, F ≤ a → a < limit → m a = 0
+  /-- (ii) every heap word from the frontier on is zero -/
+  zero_above : ∀ a, F ≤ a → a + 8 ≤ limit → (a - base) % 8 = 0 → m a = 0
   /-- (iii) the four states are pairwise disjoint and duplicate-free ... -/
   nodup : (lin ++ lazy ++ live ++ pend).Nodup
   /-- (iii) ... and together are exactly the blocks below the frontier -/
@@ -65,6 +74,9 @@ structure InvW (m : Nat → Nat) (base limit heap free : Nat)
   roots_live : ∀ r, r ∈ roots → r = 0 ∨ r ∈ live
   /-- a pending block has count 0 -/
   pend_hdr : ∀ b, b ∈ pend → m b = 0
+  /-- (vi) no cycles among the live blocks: with (iv) — every live block has a reference — this makes
+  every live block reachable from a root or from a deferred block, i.e. no block is lost -/
+  acyclic : ∃ ord, ord.Perm live ∧ TopoSorted m ord
 
 /-- `InvW` on a model state. -/
 def InvS (s : HState) (roots pend lin lazy live : List Nat) (F : Nat) : Prop :=
@@ -76,12 +88,5 @@ def InvP (s : HState) (roots pend : List Nat) : Prop :=
 
 /-- C09's invariant at statement boundaries: nothing pending. -/
 def Inv (s : HState) (roots : List Nat) : Prop := InvP s roots []
-
-/-- No cycles through pointer slots among the live blocks: `live` can be ordered so that every
-pointer slot points to a block later in the list.  Together with (iv) this makes every live block
-reachable from a root or from a deferred block. -/
-def TopoSorted (m : Nat → Nat) : List Nat → Prop
-  | [] => True
-  | b :: rest => (∀ p, p ∈ ptrSlots m b → p = 0 ∨ p ∈ rest) ∧ TopoSorted m rest
 
 end Scc.Heap
